@@ -141,6 +141,25 @@ class ModularVmapEval(_NoReplay):
         self.fnc = lambda *a: None
         self.a = Tensor.fresh("a", (4, 2))
         self.given = 4 if case == "axis_size_given" else None
+        # the function handed to jax.vmap is applied (below, inside the patch) to one lane: it must stage and run the
+        # user function with this axis size - a partial, a closure or a method are all fine
+        self.sr = []
+        self.lane_dummy, self.lane_args = object(), (object(),)
+        orig = pjax.ModularVmap.stage_and_run
+        pjax.ModularVmap.stage_and_run = staticmethod(lambda *a, **k: self.sr.append((a, k)) or "lane-result")
+        try:
+            out = self._eval(case)
+            self.lane_out = None
+            if len(self.v.calls) == 1:
+                try:
+                    self.lane_out = self.v.calls[0]["f"](self.lane_dummy, self.lane_args)
+                except Exception as e:  # noqa: BLE001
+                    self.lane_out = e
+            return out
+        finally:
+            pjax.ModularVmap.stage_and_run = orig
+
+    def _eval(self, case):
         if "python_scalar_arguments" in case:
             # f(x, 2.5, 3) with unmapped Python scalars: per lane f sees them WEAKLY typed (they take the dtype of the
             # lanes they are combined with - float16 / uint8 lanes stay float16 / uint8); handing f arrays of a fixed
@@ -169,8 +188,13 @@ class ModularVmapEval(_NoReplay):
         dummy, args = r["args"]
         yield "dummy_has_one_entry_per_lane", isinstance(dummy, Tensor) and dummy.shape == (4,)
         yield "arguments_forwarded", len(args) == 1 and args[0] is self.a
-        f = r["f"]
-        yield "maps_stage_and_run(axis_size, fn)", getattr(f, "func", None) is pjax.ModularVmap.stage_and_run and f.args[0] == 4 and f.args[1] is self.fnc
+        ok = self.lane_out == "lane-result" and len(self.sr) == 1
+        if ok:
+            import inspect
+
+            ba = inspect.signature(lambda axis_size, fn, dummy_arg, args: None).bind(*self.sr[0][0], **self.sr[0][1]).arguments
+            ok = ba["axis_size"] == 4 and ba["fn"] is self.fnc and ba["dummy_arg"] is self.lane_dummy and ba["args"] is self.lane_args
+        yield "maps_stage_and_run(axis_size, fn)_over_the_lanes", ok
         yield "returns_vmap_result", path.value == r["result"]
 
 
